@@ -543,6 +543,9 @@ def handleCore (mac : Bool) (args : List String) (obs : String) : Option Reply :
   let v : List String :=
     (if obs.startsWith "compile-error" then ["[C12][C17] the program did not compile: " ++ str ((obs.splitOn ":").getD 1 "")] else []) ++
     (if regErrs.isEmpty then [] else ["[C12] what the macros registered differs from the items as written: " ++ "; ".intercalate (regErrs.take 3)]) ++
+    -- C15: the options an attribute carries are the benchmark / group level of the resolution
+    (let optErrs := regErrs.filter fun e => (e.splitOn ": options ").length > 1
+     if optErrs.isEmpty then [] else ["[C15] the options registered for an item are not the ones its attribute states: " ++ "; ".intercalate (optErrs.take 3)]) ++
     -- functions without a `Bencher`: total calls of every selected, not-ignored case; nothing else called
     (if mac ∧ !listing ∧ (seg 'X') = "0" then
        let bad := nbRuns.find? fun c =>
